@@ -1,4 +1,4 @@
-SPECIFICATION Spec
+SPECIFICATION GSpec
 CONSTANTS
   Inits <- @@INITS@@
   Targets <- @@TARGETS@@
@@ -7,6 +7,10 @@ CONSTANTS
   Methods <- @@METHODS@@
   MaxSet = @@MAXSET@@
   MaxHops = @@MAXHOPS@@
+  NSamples = @@NSAMPLES@@
+  Seed = @@SEED@@
+  SampleHops = @@SAMPLEHOPS@@
+  ExHops = @@EXHOPS@@
 INVARIANT Inv
 INVARIANT HistInv
 INVARIANT Emit
